@@ -93,3 +93,45 @@ Proof.
       rewrite Forall_forall in Hall, Hall'. specialize (Hall _ Hy). specialize (Hall' _ Hx). unfold desc in *. lia. }
     subst y. f_equal. apply IH; [eapply Permutation_cons_inv; eassumption|assumption|assumption].
 Qed.
+
+(* ---- the result of a batch matching does not depend on the order in which the store hands over the bids ---- *)
+Lemma sumZ_perm : forall l l' : list Z, Permutation l l' -> sumZ l = sumZ l'.
+Proof.
+  induction 1 as [|x l l' _ IH|x y l|l l' l'' _ IH1 _ IH2]; unfold sumZ in *; cbn [fold_right] in *.
+  - reflexivity.
+  - rewrite IH. reflexivity.
+  - ring.
+  - congruence.
+Qed.
+
+Lemma filter_perm {A} (f : A -> bool) : forall l l', Permutation l l' -> Permutation (filter f l) (filter f l').
+Proof.
+  induction 1; cbn [filter].
+  - constructor.
+  - destruct (f x); [constructor|]; assumption.
+  - destruct (f x), (f y); try apply Permutation_refl; [apply perm_swap].
+  - eapply Permutation_trans; eassumption.
+Qed.
+
+Lemma reserved_of_perm pd u : forall bs bs', Permutation bs bs' -> reserved_of pd bs u = reserved_of pd bs' u.
+Proof. intros bs bs' H. unfold reserved_of. apply sumZ_perm, Permutation_map, filter_perm, H. Qed.
+
+(* same sweep order, the recorded bids in any order: same clearing price, same matched bids, same total, same ordered
+   list of bidders, same allocation and same refund of everybody *)
+Theorem calc_batch_store_order a bs bs' order al :
+  Permutation bs bs' ->
+  match calc_batch a bs order al, calc_batch a bs' order al with
+  | Some m, Some m' =>
+      mi_price m = mi_price m' /\ mi_matched m = mi_matched m' /\ mi_total m = mi_total m' /\
+      mi_bidders m = mi_bidders m' /\ (forall u, mi_alloc m u = mi_alloc m' u) /\ (forall u, mi_refund m u = mi_refund m' u)
+  | None, None => True
+  | _, _ => False
+  end.
+Proof.
+  intros H. unfold calc_batch.
+  destruct (search _ _ _ _ _) as [best|]; [|exact I].
+  cbn [mi_price mi_matched mi_total mi_bidders mi_alloc mi_refund].
+  repeat split; try reflexivity.
+  - apply bidders_of_perm, H.
+  - intros u. rewrite (reserved_of_perm (a_pay_denom a) u bs bs' H). reflexivity.
+Qed.
